@@ -41,3 +41,17 @@ func unwrapJSONNumber(input any) any {
 
 	return input
 }
+
+// unwrapJSONNumbers unwraps every json.Number found in a (possibly nested) list.
+func unwrapJSONNumbers(input any) any {
+	if list, ok := input.([]any); ok {
+		unwrapped := make([]any, 0, len(list))
+		for _, item := range list {
+			unwrapped = append(unwrapped, unwrapJSONNumbers(item))
+		}
+
+		return unwrapped
+	}
+
+	return unwrapJSONNumber(input)
+}
